@@ -90,6 +90,11 @@ def gen_cases(tier, seed):
                         ([2, 2, 2, 2, 2], [[0, 1, 2, 3, 4]])):
         for kind in ("sub-cyclic", "sub-dihedral", "sub-pairs"):
             yield {"w": "dense", "shape": shp, "groups": groups, "kind": kind, "shuffle_groups": False, "cseed": int(seed) * 141650939 % (2 ** 31) + next(cs)}
+    # sequences of calls on tensors of one shape with a different group each time
+    for shp, seq in (([3, 3, 3], [[[0, 1]], [[1, 2]], [[0, 2]], [[0, 1, 2]]]), ([2, 2, 2, 2], [[[0, 1, 2]], [[1, 3]], [[0, 1], [2, 3]], [[0, 3]]]),
+                     ([3, 2, 3], [[[0, 2]], [[2, 0]]]), ([2, 2, 2], [[[0, 1, 2]], [[1, 2]], [[0, 1]]])):
+        yield {"w": "dense_sequence", "shape": shp, "group_sequence": seq, "groups": seq[0], "kind": "sequence", "shuffle_groups": False,
+               "cseed": int(seed) * 141650939 % (2 ** 31) + next(cs)}
     # tensors with more than 2^16 elements: symmetric, and symmetric except for one entry whose partner lies at the far end
     for shp, groups in (([300, 300], [[0, 1]]), ([41, 41, 41], [[0, 1, 2]]), ([45, 40, 45], [[0, 2]]), ([17, 17, 17, 17], [[0, 1], [2, 3]])):
         for kind in ("symmetric", "tail-off", "head-off"):
@@ -144,6 +149,26 @@ def run_case(case, ctx):
         return _kruskal(case, ctx, rng, shape, N)
     if case["w"] == "dense_large":
         return _dense_large(case, ctx, rng, shape, N)
+    if case["w"] == "dense_sequence":
+        # one process, tensors of one shape, a different group (or group set) in every call: no call depends on the ones before it
+        for step_, groups in enumerate(case["group_sequence"]):
+            A = gen.normals(rng, shape)
+            garg = np.array(groups[0]) if len(groups) == 1 else np.array(groups)
+            want = refops.symmetrize(A, groups)
+            for ver in (None, 1):
+                T = ttb.tensor(A.copy())
+                r = ctx.call("tensor.symmetrize", T.symmetrize, garg.copy(), **({} if ver is None else {"version": ver}))
+                if not r.ok:
+                    ctx.check(False, "tensor.symmetrize", "RAISE:" + type(r.exc).__name__, f"{type(r.exc).__name__}: {r.exc} | {r.tb}", version=str(ver), step=min(step_, 3))
+                    continue
+                S = denote(r.value)
+                ctx.check(S.shape == want.shape and close(S, want, tol=1e-12), "tensor.symmetrize", "WRONG",
+                          lambda: f"call {step_ + 1} of a sequence on shape {shape}: symmetrize(groups={groups}, version={ver}) differs from the permutation average "
+                          f"(earlier calls used {case['group_sequence'][:step_]})", version=str(ver), step=min(step_, 3))
+                ri = ctx.call("tensor.issymmetric", r.value.issymmetric, garg.copy())
+                if ri.ok:
+                    ctx.check(bool(ri.value) is True, "tensor.issymmetric", "RESULT-NOT-SYMMETRIC", "the symmetrised tensor fails the symmetry test", version=str(ver), step=min(step_, 3))
+        return
     groups = [list(g) for g in case["groups"]]
     if case["shuffle_groups"]:
         groups = [[int(x) for x in rng.permutation(g)] for g in groups]
